@@ -36,7 +36,7 @@ func (a tv) join(b tv) tv { return tv{a.v || b.v, a.c || b.c} }
 func (a tv) any() bool    { return a.v || a.c }
 
 type ctOblig struct {
-	Name, Kind, Func, Pos, What string
+	Name, ShapeName, Kind, Func, Pos, What string
 	OK                          bool
 }
 
@@ -363,7 +363,28 @@ func (fr *ctFrame) oblige(kind string, n ast.Node, ok bool, what string) {
 	name := fmt.Sprintf("%s/%s[%s]", fr.fi.Key, kind, txt)
 	o := fr.an.obligs[name]
 	if o == nil {
-		o = &ctOblig{Name: name, Kind: kind, Func: fr.fi.Key, Pos: fr.pos(n.Pos()), What: what, OK: true}
+		// a second name that does not depend on the names of locals: callee (for calls) and the shape of the expression
+		shape := ""
+		if e, ok := n.(ast.Expr); ok {
+			shape = fr.shapeOf(e, true)
+			if c, ok := unparen(e).(*ast.CallExpr); ok {
+				var fn *types.Func
+				switch f := unparen(c.Fun).(type) {
+				case *ast.Ident:
+					fn, _ = fr.info.Uses[f].(*types.Func)
+				case *ast.SelectorExpr:
+					if sel, ok := fr.info.Selections[f]; ok {
+						fn, _ = sel.Obj().(*types.Func)
+					} else {
+						fn, _ = fr.info.Uses[f.Sel].(*types.Func)
+					}
+				}
+				if fn != nil {
+					shape = funcKey(fn) + "|" + shape
+				}
+			}
+		}
+		o = &ctOblig{Name: name, ShapeName: fmt.Sprintf("%s/%s~[%s]", fr.fi.Key, kind, shape), Kind: kind, Func: fr.fi.Key, Pos: fr.pos(n.Pos()), What: what, OK: true}
 		fr.an.obligs[name] = o
 		fr.an.order = append(fr.an.order, name)
 	}
